@@ -173,7 +173,7 @@ const MAX_LIVE_HANDLES: usize = 3;
 
 impl<S: Service + 'static> World<S> {
     fn new(cfg: &Cfg) -> Result<Self, Fail> {
-        let domain = Domain::new()?;
+        let domain = Domain::new(cfg.variant.is_ipc())?;
         let name: ServiceName = format!("c06/{}", domain.tag).as_str().try_into().map_err(|e| Fail::new("setup", "service name", dbg(e)))?;
         let mut w = World { cfg: cfg.clone(), domain, name, exists: None, handles: Vec::new(), creator_config: None, nodes: Vec::new(), rows: Vec::new(), done: false };
         for _ in 0..2 {
